@@ -64,7 +64,7 @@ func verifPathByte() byte {
 // of the documented shapes and the path still lies under its API prefix after
 // dot-segment normalisation.
 //
-//verif:harness name=H19a-shape tier=quick bounds="method in {GET, POST, PUT, HEAD}; path = {'/', '//', '///'} + {linkip, ddns, x, ''} + up to 7 symbolic bytes over {'/', '.', 'a', 's'} + {'', '/status', 'status'}" reach=proxied-get,proxied-post,refused maxpaths=200000
+//verif:harness name=H19a-shape tier=quick bounds="method in {GET, POST, PUT, HEAD}; path = {'/', '//', '///'} + {linkip, ddns, x, '', DDNS, LinkIP} + up to 7 symbolic bytes over {'/', '.', 'a', 's'} + {'', '/status', 'status'}" reach=proxied-get,proxied-post,refused maxpaths=200000
 func VerifC19Shape() { verifC19Shape(7) }
 
 // VerifC19ShapeLong is the thorough variant.
@@ -74,7 +74,7 @@ func VerifC19ShapeLong() { verifC19Shape(10) }
 
 func verifC19Shape(maxSym int) {
 	method := []string{http.MethodGet, http.MethodPost, http.MethodPut, http.MethodHead}[verifChoice(4)]
-	first := []string{"linkip", "ddns", "x", ""}[verifChoice(4)]
+	first := []string{"linkip", "ddns", "x", "", "DDNS", "LinkIP"}[verifChoice(6)]
 	n := verifChoice(maxSym + 1)
 	mid := make([]byte, n)
 	for i := range mid {
